@@ -33,12 +33,14 @@ theorem hodge_e (s : SC) (k : Nat) (o : PyId → Nat) (i j : Nat) :
     (hodge s k o).e i j =
       (∑ m ∈ range (boundary s k o).r, (boundary s k o).e m i * (boundary s k o).e m j) +
       (∑ m ∈ range (boundary s (k + 1) o).c, (boundary s (k + 1) o).e i m * (boundary s (k + 1) o).e j m) := by
-  simp only [hodge, Mat.add, Mat.mul, Mat.transpose, list_sum_range]
+  simp only [hodge, Mat.memo_eq, Mat.add, Mat.mul, Mat.transpose, list_sum_range]
 
 theorem mulVec_eq (m : Mat) (x : Nat → Int) (i : Nat) : m.mulVec x i = ∑ j ∈ range m.c, m.e i j * x j := by
   simp only [Mat.mulVec, list_sum_range]
 
-theorem hodge_r (s : SC) (k : Nat) (o : PyId → Nat) : (hodge s k o).r = (boundary s k o).c := rfl
-theorem hodge_c (s : SC) (k : Nat) (o : PyId → Nat) : (hodge s k o).c = (boundary s k o).c := rfl
+theorem hodge_r (s : SC) (k : Nat) (o : PyId → Nat) : (hodge s k o).r = (boundary s k o).c := by
+  simp only [hodge, Mat.memo_eq]; rfl
+theorem hodge_c (s : SC) (k : Nat) (o : PyId → Nat) : (hodge s k o).c = (boundary s k o).c := by
+  simp only [hodge, Mat.memo_eq]; rfl
 
 end Xgi.C13
